@@ -79,6 +79,11 @@ func vfConnOutcome(err error, echoed string, want string) string {
 		return "closed"
 	case errors.Is(err, ErrNoStreams):
 		return "nostreams"
+	case strings.Contains(err.Error(), "vfgarbled"), strings.Contains(err.Error(), "unexpected protocol version in response"),
+		strings.Contains(err.Error(), "unsupported protocol response version"):
+		// the scripted node only ever sends well-formed answers: the caller was handed bytes that are
+		// not the response to its request
+		return "garbled"
 	case strings.Contains(err.Error(), "injected frame build failure"):
 		return "builderr"
 	case strings.Contains(err.Error(), "already in use"):
@@ -243,11 +248,11 @@ func vfRunConnScenario(cfg vfConnScenarioCfg) (events []map[string]interface{}, 
 			if xerr == nil {
 				frame, perr := fr.parseFrame()
 				if perr != nil {
-					xerr = perr
+					xerr = fmt.Errorf("vfgarbled: %w", perr)
 				} else if k, isKs := frame.(*resultKeyspaceFrame); isKs {
 					echoed = k.keyspace
 				} else {
-					echoed = fmt.Sprintf("unexpected frame %T", frame)
+					xerr = fmt.Errorf("vfgarbled: unexpected frame %T", frame)
 				}
 			}
 		})
